@@ -123,10 +123,11 @@ Definition node_restrictions (nd : anode) (prev next : neigh) (bmin bmax : Q) (l
     map a_name (filter (fun a => negb (a_multi a) && covers a bmin bmax
                                  && (smem (a_name a) r || (isnil r && a_allowed a))) lib).
 
-(* set_one_amplifier 1011-1016: max_fiber_lineic_loss_for_raman is in dB/km, loss_coef in dB/m *)
+(* set_one_amplifier 1011-1016.  max_lineic = max_fiber_lineic_loss_for_raman * 1e-3, the limit in dB/m as the code
+   compares it with loss_coef (the unit conversion is made by the harness, with the same float product) *)
 Fixpoint all_lt (l : list Q) (x : Q) : bool := match l with [] => true | y :: t => qltb y x && all_lt t x end.
 Definition raman_allowed (prev : neigh) (max_lineic : Q) : bool :=
-  match prev with NFiber lcs => all_lt lcs (max_lineic * (1 # 1000)) | _ => false end.
+  match prev with NFiber lcs => all_lt lcs max_lineic | _ => false end.
 
 (* set_one_amplifier 1018-1021 *)
 Definition restrict_lib (restr : list string) (lib : list amp) : list amp :=
@@ -157,9 +158,3 @@ Definition select_crit (ra : bool) (gain pt ext : Q) (lib : list amp) : Q :=
             | _ => []
             end in
   qmin_list 1 (c1 ++ c2 ++ c3).
-(* distance of the fibre loss coefficient(s) to the Raman limit *)
-Definition raman_crit (prev : neigh) (max_lineic : Q) : Q :=
-  match prev with
-  | NFiber lcs => qmin_list 1 (map (fun y => qabs (y - max_lineic * (1 # 1000))) lcs)
-  | _ => 1
-  end.
